@@ -112,14 +112,25 @@ def nts_of(rules, V):
 
 
 def run_free(case):
+    r = _run_free(case, None)
+    var_of = gram.shared_vars(case_rules(case))
+    if var_of is not None:
+        r2 = _run_free(case, var_of)  # duplicate rules equal by value (same weight)
+        r["evals"] += r2["evals"]
+        r["fails"] += r2["fails"]
+        r["counters"]["executions"] += r2["counters"]["executions"]
+    return r
+
+
+def _run_free(case, var_of):
     rules = case_rules(case)
     V = case_terms(case)
     NT = nts_of(rules, V)
-    want = {X: table_total(enum_derivs(rules, X, V, Poly.D)) for X in NT}
-    inp0 = {"rules": case["rules"]}
+    want = {X: table_total(enum_derivs(rules, X, V, Poly.D, var_of=var_of)) for X in NT}
+    inp0 = {"rules": case["rules"]} if var_of is None else {"rules": case["rules"], "duplicates_share_weight": True}
     fails = []
     evals = 0
-    g = gram.build(rules, Poly, gram.poly_weights(len(rules)), V=V)
+    g = gram.build(rules, Poly, gram.poly_weights(len(rules)) if var_of is None else [Poly.var(v) for v in var_of], V=V)
     for name, f in (("agenda", lambda: g.agenda()), ("naive_bottom_up", lambda: g.naive_bottom_up())):
         have = _call(f)
         evals += 1
